@@ -1,7 +1,7 @@
 from propcfg.common import *
 
 CFG = {
-    "disabled": True,
+    "disabled": False,
     "props": "Props/C20.v",
     "corr": ["Corr/CodecCorr.v"],
     "engines": [("codec", [])],
